@@ -267,3 +267,73 @@ C(f"{F}:Parser._concat_strings_in_constant", params={"self": "obj:Parser", "part
       f"not ({MIX})",
   ],
   raises_when={"SyntaxError": MIX}, raises=["SyntaxError"], properties=["C01", "C02", "C10"])
+
+# ---------------------------------------------------------------------------------------------- xonsh expression builders (C05): the tree IS the documented translation
+LOCS = {"lineno": "int", "col_offset": "int", "end_lineno": "int", "end_col_offset": "int"}
+LOCARGS = "lineno, col_offset, end_lineno, end_col_offset"
+INL = ["xonsh_call", "load_attribute_chain"]
+
+C(f"{F}:Parser.expand_env_name", params={"self": "obj:Parser", "name": "Tok", "ctx": "opt[union[const:Load|const:Store]]=None", **LOCS}, inline=INL,
+  ensures=["implies(is_none(old(ctx)), is_translation(result, '__xonsh__.env[S0]', name.string))",
+           # as a binding target (ctx given): the same subscript with that context
+           "isinstance(result, ast.Subscript) and is_translation(result.value, '__xonsh__.env') and is_translation(result.slice, 'S0', name.string)",
+           "implies(not is_none(old(ctx)), result.ctx is old(ctx))",
+           f"all_located(result, {LOCARGS})"],
+  raises=[], pure=True, properties=["C05"])
+
+C(f"{F}:Parser.expand_env_expr", params={"self": "obj:Parser", "slices": "obj:PosNode", "ctx": "opt[union[const:Load|const:Store]]=None", **LOCS}, inline=INL,
+  ensures=["implies(is_none(old(ctx)), is_translation(result, '__xonsh__.env[str(H0)]', slices))",
+           "isinstance(result, ast.Subscript) and is_translation(result.value, '__xonsh__.env') and is_translation(result.slice, 'str(H0)', slices)",
+           "implies(not is_none(old(ctx)), result.ctx is old(ctx))", f"all_located(result, {LOCARGS}, slices)"],
+  raises=[], pure=True, properties=["C05"])
+
+C(f"{F}:Parser.expand_search_path", params={"self": "obj:Parser", "a": "Tok", **LOCS}, inline=INL,
+  ensures=["is_translation(result, '__xonsh__.pathsearch(S0)', a.string)", f"all_located(result, {LOCARGS})"], raises=[], pure=True, properties=["C05"])
+
+C(f"{F}:Parser.proc_pyexpr", params={"self": "obj:Parser", "expr": "obj:PosNode", **LOCS}, inline=INL,
+  ensures=["isinstance(result, ast.Starred) and is_translation(result.value, '__xonsh__.list_of_strs_or_callables(H0)', expr)", f"all_located(result, {LOCARGS}, expr)"],
+  raises=[], pure=True, properties=["C05", "C06"])
+
+# subprocess operators: `$(..)`, `$[..]`, `!(..)`, `![..]` are calls of the four documented entry points on the grouped arguments (A0: the list as given)
+METHODS = "subproc_captured|subproc_uncaptured|subproc_captured_object|subproc_captured_hiddenobject"
+C(f"{F}:Parser.handle_proc", params={"self": "obj:Parser", "method": f"oneof[{METHODS}]", "args": "seq[val]", **LOCS}, inline=INL,
+  ensures=[f"implies(method == '{m}', is_translation(result, '__xonsh__.{m}(*A0)', args))" for m in METHODS.split("|")] + [f"all_located(result, {LOCARGS})"],
+  raises=[], pure=True, properties=["C05", "C06"])
+C(f"{F}:Parser.proc_inject", params={"self": "obj:Parser", "args": "seq[val]", **LOCS}, inline=INL,
+  ensures=["isinstance(result, ast.Starred) and is_translation(result.value, '__xonsh__.subproc_captured_inject(*A0)', args)", "result.ctx is Load", f"all_located(result, {LOCARGS})"],
+  raises=[], pure=True, properties=["C05", "C06"])
+
+# macros: the raw text of every argument / of the block is handed over as a string Constant placed AT that text, with globals() and locals()
+C(f"{F}:Parser.macro_call", params={"self": "obj:Parser", "a": "obj:PosNode", "b": "seq[Tok]", **LOCS}, inline=INL,
+  ensures=["is_translation(result, '__xonsh__.call_macro(H0, (*_,), globals(), locals())', a)",
+           # one string per argument, in order, none dropped or added; each carries the argument's own text and position
+           "len(result.args[1].elts) == len(b)",
+           "all(isinstance(result.args[1].elts[j], ast.Constant) and result.args[1].elts[j].value == b[j].string for j in range(len(b)))",
+           "all(node_start(result.args[1].elts[j]) == b[j].start and node_end(result.args[1].elts[j]) == b[j].end for j in range(len(b)))",
+           f"all_located(result, {LOCARGS}, a)",
+           # the macro scan is over: the tokenizer is back in normal mode for what follows
+           "self._tokenizer._call_macro == False"],
+  modifies=["self._tokenizer._call_macro"], raises=[], properties=["C05", "C07", "C12"])
+
+C(f"{F}:Parser.handle_with_macro_stmt", params={"self": "obj:Parser", "a": "obj:ast.withitem", "b": "Tok", **LOCS}, inline=INL,
+  ensures=["isinstance(result, ast.With) and len(result.items) == 1 and result.items[0] is a",
+           "is_translation(a.context_expr, '__xonsh__.enter_macro(H0, S1, globals(), locals())', old(a.context_expr), b.string)",
+           "node_start(a.context_expr.args[1]) == b.start and node_end(a.context_expr.args[1]) == b.end",
+           "len(result.body) == 1 and isinstance(result.body[0], ast.Pass)",
+           f"all_located(result, {LOCARGS}, old(a.context_expr), a.context_expr.args[1])",
+           "self._tokenizer._with_macro == False"],
+  modifies=["self._tokenizer._with_macro", "a.context_expr"], raises=[], properties=["C05", "C07", "C12"])
+
+# entering a macro: the flag the tokenizer reads for its NEXT token is raised, the node goes through untouched
+for _nm, _flag, _ty in (("handle_func_macro_start", "_call_macro", "obj:PosNode"), ("handle_with_macro_start", "_with_macro", "obj:ast.withitem"), ("handle_proc_macro_start", "_proc_macro", "Tok")):
+    C(f"{F}:Parser.{_nm}", params={"self": "obj:Parser", "a": _ty}, ensures=["result is a" if _ty != "Tok" else "result == a", f"self._tokenizer.{_flag} == True"],
+      modifies=[f"self._tokenizer.{_flag}"], raises=[], properties=["C07", "C12"])
+
+# `$(cmd! raw text)`: one string Constant starting right after the `!`; the scan flag is lowered (the text itself: stand-in of C07)
+C(f"{F}:Parser.proc_macro_arg", params={"self": "obj:Parser", "a": "seq[val]", **LOCS},
+  ensures=["isinstance(result, ast.Constant)", "result.lineno == lineno and result.col_offset == old(col_offset) + 1 and result.end_lineno == end_lineno and result.end_col_offset == end_col_offset",
+           "self._tokenizer._proc_macro == False"],
+  modifies=["self._tokenizer._proc_macro"], raises=[], properties=["C07", "C12"])
+
+C(f"{F}:Parser.set_expr_context", params={"self": "obj:Parser", "node": "obj:ast.Starred", "context": "union[const:Load|const:Store|const:Del]"},
+  ensures=["result is node", "node.ctx is context"], modifies=["node.ctx"], raises=[], properties=["C04"])
